@@ -158,6 +158,31 @@ def gen_c15_burst(rng):
     return cfg + "\n" + "\n".join(ops) + "\n"
 
 
+def gen_c09_hot(rng):
+    """hot keys kept by the reinsertion filter and overwritten again and again, a stream of cold keys filling the device,
+    entries of one size (so that copies of different generations land at the same offsets of reused blocks): every
+    superseded copy of a hot key is reinserted at every reclaim; a lookup must still return the latest version or a miss"""
+    blocks = rng.choice([4, 6, 8])
+    hot = list(range(rng.choice([2, 4])))
+    cfg = H.cfg_line(policy="woi", algo="fifo", mem=1, univ=8, blocks=blocks, flushers=rng.choice([1, 1, 2]), clean=1,
+                     reclaimers=rng.choice([1, 2]), reinsert=",".join(map(str, hot)), tomb=0, timeout=30, buffer=16777216)
+    size = rng.choice([3000, 3000, 7000])
+    ops, ver, cold = [], 1, 100
+    for _ in range(rng.choice([40, 60, 90])):
+        for _ in range(rng.choice([3, 5, 8])):
+            if rng.random() < 0.35:
+                k = rng.choice(hot)
+            else:
+                cold += 1; k = cold
+            ops.append(f"ins k={k} ver={ver} size={size}"); ver += 1
+        if rng.random() < 0.6:
+            ops.append("wait")
+        ops += [f"sload k={k}" for k in hot]
+    ops.append("wait")
+    ops += [f"sload k={k}" for k in hot]
+    return cfg + "\n" + "\n".join(ops) + "\n"
+
+
 def gen_c09(rng):
     blocks = rng.choice([4, 5, 6, 8])
     flushers = rng.choice([1, 1, 2])
@@ -345,9 +370,12 @@ def gen_scripts(pid, tier, seed):
             "histories ending in close [+ late insert] [+ second close] + reopen + read of every key; both policies, flush_on_close " \
             "on/off, in-memory-only entries, entries updated after their first disk write, reinsertion filter with a small device"
     if pid == "C09":
-        return [gen_c09_order(rng) for _ in range(6 if th else 2)] + [gen_c09(rng) for _ in range(300 if th else 36)], \
+        return [gen_c09_order(rng) for _ in range(6 if th else 2)] + [gen_c09(rng) for _ in range(300 if th else 36)] + \
+               [gen_c09_hot(rng) for _ in range(60 if th else 8)], \
             "sustained inserts of 2..4 device capacities (4..8 blocks of 64 KiB, mixed sizes, overwrites, deletes, lookups), " \
-            "1..2 flushers, 1..2 reclaimers, reinsertion filter none / key 0"
+            "1..2 flushers, 1..2 reclaimers, reinsertion filter none / key 0; hot keys kept by the reinsertion filter and " \
+            "overwritten repeatedly among a stream of cold keys of the same size (copies of several generations at the same " \
+            "offsets of reused blocks), looked up after every burst"
     if pid == "C04":
         n = 60 if th else 8
         return [gen_c04(rng, False, "0,1,3" if th else "0,1") for _ in range(n)] + [gen_c04(rng, True) for _ in range(n // 2)], \
